@@ -37,6 +37,14 @@ CHECKS.update({
    text="Same structure space as C14; the bytes produced by CDRFile.Encoding are parsed by an independent reader written from TS 32.297 6.1.1/6.1.2 which must recover every field, find extension octets exactly for release identifier 7 in high-then-low order, and consume the file exactly.",
    ref="6 C14/C15", note=TB_E2),
 })
+CHECKS.update({
+ "C02": dict(engine=E1, technique="explicit-state BFS over request histories on the real implementation; placement oracle on in-memory records and on every decoded file; bounded-exhaustive zone/instant enumeration for the timestamp",
+   text="All histories up to the depth bound over two subscribers with up to two sessions each (create with/without usage, updates with one/several containers and rating groups, partial-record trigger, release with usage) and bulk histories that force record splitting; after every transition every session's record(s) must hold exactly the containers reported on it, in order and field by field, nothing foreign, with the identity fields of the create and the right closing cause; files are decoded with an independent reader and the real decoder. TimeStampToCdr is compared with an independent BCD encoder over all quarter-hour offsets -12:00..+14:00 plus odd ones x 12 boundary instants.",
+   ref="6 C02", note=TB_E1),
+ "C03": dict(engine=E1, technique="explicit-state BFS over bulk request histories on the real implementation; every file write parsed by an independent TS 32.297 reader + BER walker",
+   text="Histories of bulk updates (900/1300/2000/4000 containers), releases and creates carrying bulk usage, up to the depth bound; every write to the CDR file table during the last transition must parse (header/file lengths, CDR count, per-record length, exactly one complete BER CHF record per payload) and no record may exceed 65535 octets.",
+   ref="6 C03", note=TB_E1),
+})
 NA_REASON = "check under construction (see DESIGN.md section 6)"
 
 m = {"version": 1, "setup_cmd": "./setup.sh",
